@@ -278,6 +278,14 @@ def finish(prop, tier, mod, base_seed, results, wall, harness_errors, planned, t
                                         default=str)[:1500])
         print('  (%d violating runs of %d; %d distinct signatures)' % (
             len(unknown), evals, len({x['violation']['signature'] for x in unknown})))
+        seen = set()
+        for x in unknown:
+            sg = x['violation']['signature']
+            if sg not in seen and len(seen) < 8:
+                seen.add(sg)
+                print('  signature: seed=%d %s :: %s' % (
+                    x['seed'], sg, json.dumps(x['violation'].get('detail'), ensure_ascii=False,
+                                              default=str)[:400]))
         rc = 1
     if harness_errors:
         for h in harness_errors[:3]:
